@@ -14,7 +14,7 @@ RULE = ("cases = generated 2D plotfiles (rectangular domains, non-zero origin, n
         "one evaluation = one flatten compared bitwise with the model's covering grid. distinct = "
         "hash(model, fields, limit, mode); non-trivial = >=2 levels and a non-square domain or box")
 ASSUMPTIONS = ["generator/refparse trusted base", "pool shim M1 with shuffled schedules"]
-REQUIRED_OBS = {"flattened": 100, "parallel": 30, "with_grid_level": 30, "cli_runs": 20}
+REQUIRED_OBS = {"flattened": 100, "reused_instance_calls": 60, "parallel": 30, "with_grid_level": 30, "cli_runs": 20}
 
 
 def cases(tier, seed):
@@ -143,6 +143,37 @@ def run_case(case, work, rec):
                                   key=key, witness={"config": descr, "differences": probs[:5]})
                 else:
                     rec.ok(key, m.nlevels >= 2 and L >= 1 and nonsq)
+    # one Mandoline instance flattened several times: every call returns the covering grid, and what an
+    # earlier call returned does not change afterwards
+    if "asset" not in case:
+        poison.set_poison(np.nan)
+        nm0 = names[-1]
+        exp = gen.covering(m, names.index(nm0), finest).T
+        lmapT = gen.level_map(m, finest).T
+        for serial in (True, False):
+            key = (digest, "reuse", serial)
+            held = []
+            try:
+                pools.CTL.reset(mode="inproc", seed=rng.randrange(10 ** 6))
+                md = Mandoline(path, fields=[nm0, "grid_level"], serial=serial, verbose=0)
+                bad = None
+                for rep in range(3):
+                    o = md.slice(fformat="return")
+                    rec.count("reused_instance_calls")
+                    held.append(o)
+                    if not refparse.biteq(o[nm0], exp) or not np.array_equal(np.asarray(o["grid_level"]), lmapT):
+                        bad = f"call {rep + 1} on the same instance is not the covering grid"
+                        break
+                if bad is None and any(not refparse.biteq(o[nm0], exp) for o in held):
+                    bad = "an array returned by an earlier call changed during a later call"
+                if bad:
+                    rec.violation(f"flattened output is not the covering grid ({bad}): fields={[nm0, 'grid_level']} serial={serial}",
+                                  key=key, witness={"what": bad})
+                else:
+                    rec.ok(key, m.nlevels >= 2)
+            except Exception as e:
+                rec.violation(f"flattening raised {type(e).__name__}: repeated calls on one instance, serial={serial}",
+                              key=key, witness={"exc": repr(e)[:300]})
     # the mandoline entry point (array format) must save what the API returns
     cli = common.repo_module("amr_kitchen.mandoline.cli")
     for fl in flists[:2]:
